@@ -19,11 +19,13 @@ pub struct Event {
     pub d: Value,
     pub notes: Vec<Value>,
     pub ans: String,
+    /// which store the event belongs to ("" when the run has one store, "A." / "B." otherwise)
+    pub st: String,
 }
 
 impl Event {
     pub fn to_json(&self) -> Value {
-        json!({"seq": self.seq, "t": self.t, "ev": self.ev, "d": self.d, "notes": self.notes, "ans": self.ans})
+        json!({"seq": self.seq, "t": self.t, "ev": self.ev, "d": self.d, "notes": self.notes, "ans": self.ans, "st": self.st})
     }
 }
 
@@ -57,6 +59,7 @@ struct Inner {
     chan_hint: HashMap<ThreadId, String>,
     stores: HashMap<usize, String>, // store id -> prefix ("" for the first store, "B." for the second)
     store_hint: HashMap<ThreadId, String>,
+    cur_st: HashMap<ThreadId, String>, // store of the public call a client thread is in
     task_ids: HashMap<usize, i64>,
     n_tasks: HashMap<String, i64>,
     unknown: u64,
@@ -98,6 +101,7 @@ impl Inner {
             chan_hint: HashMap::new(),
             stores: HashMap::new(),
             store_hint: HashMap::new(),
+            cur_st: HashMap::new(),
             task_ids: HashMap::new(),
             n_tasks: HashMap::new(),
             unknown: 0,
@@ -186,6 +190,12 @@ impl Sched {
         g.store_hint.insert(std::thread::current().id(), prefix.to_string());
     }
 
+    /// the current thread starts a public call on this store
+    pub fn set_cur_store(&self, prefix: &str) {
+        let mut g = self.inner.lock().unwrap();
+        g.cur_st.insert(std::thread::current().id(), prefix.to_string());
+    }
+
     /// the scripted callback the current thread is leaving gave this answer
     pub fn set_left_ans(&self, ans: &str) {
         let mut g = self.inner.lock().unwrap();
@@ -255,7 +265,10 @@ impl Sched {
                         let lt = g.task_ids.get(&obj).cloned().unwrap_or(-1);
                         format!("{}W{}", prefix, lt)
                     }
-                    "chloop.wait" => format!("Ch{}", ch),
+                    "chloop.wait" => match ch.split_once('.') {
+                        Some((p, rest)) => format!("{}.Ch{}", p, rest),
+                        None => format!("Ch{}", ch),
+                    },
                     _ => {
                         g.unknown += 1;
                         format!("?{}", g.unknown)
@@ -340,7 +353,17 @@ impl Sched {
             }
             _ => (Class::Gate, "unknown.hook", json!({"kind": kind})),
         };
-        self.emit_locked(g, role, class, ev, d);
+        // the store the event belongs to: by store identity, by channel name, or the call in progress
+        let st = if store != 0 {
+            prefix.clone()
+        } else if let Some((p, _)) = ch.split_once('.') {
+            format!("{}.", p)
+        } else if obj == 0 {
+            g.cur_st.get(&tid).cloned().unwrap_or_default()
+        } else {
+            String::new()
+        };
+        self.emit_locked(g, role, class, ev, d, st);
     }
 
     /// A harness-side point of the current thread (scripted callback, end of a public call).
@@ -370,7 +393,11 @@ impl Sched {
                 r
             }
         };
-        self.emit_locked(g, role, class, ev, d)
+        let st = match role.split_once('.') {
+            Some((p, _)) if !role.starts_with('?') => format!("{}.", p),
+            _ => g.cur_st.get(&tid).cloned().unwrap_or_default(),
+        };
+        self.emit_locked(g, role, class, ev, d, st)
     }
 
     fn emit_locked(
@@ -380,6 +407,7 @@ impl Sched {
         class: Class,
         ev: &str,
         d: Value,
+        st: String,
     ) -> String {
         match class {
             Class::Drop => return String::new(),
@@ -400,6 +428,7 @@ impl Sched {
             d,
             notes,
             ans,
+            st,
         };
         g.log.push(e.clone());
         let is_final = matches!(class, Class::Final);
